@@ -126,8 +126,16 @@ pub fn content(rng: &mut Rng, me: &str, others: &[&str], lng: bool) -> String {
   let fld = long("field", lng);
   let tp = if lng { "TypeParamWithLongName" } else { "T" };
   let imp = |names: &str, from: &str| format!("import {{ {names} }} from {from}\n");
-  match rng.below(21) {
+  // a member that only interfaces declare (no class defines it, callers reach it through the
+  // interface type)
+  let iface_only = long("declaredOnlyByTheInterface", lng);
+  // declarations often carry documentation
+  let doc = if rng.chance(1, 3) { "/** documentation comment of the declaration, long enough */\n" } else { "" };
+  let text = match rng.below(24) {
     16..=20 => zoo(rng, &c, other, &oc, lng),
+    // caller of a member that other's interface declares
+    21 | 22 => format!("{}class {c} {{\n  function {g}({p}: {oc}): int = {p}.{iface_only}() + {p}.{f}()\n}}\n", imp(&oc, other)),
+    23 => format!("{}interface {c} : {oc} {{\n  method {iface_only}(): int\n}}\n", imp(&oc, other)),
     // exporter with member f returning int
     0 => format!("class {c} {{\n  function {f}(): int = 1\n  function {g}({p}: int, {q}: Str): int = {p}\n}}\n"),
     // exporter where f is missing / has another type
@@ -150,7 +158,7 @@ pub fn content(rng: &mut Rng, me: &str, others: &[&str], lng: bool) -> String {
     // enum class + match, generic
     10 => format!("class {c}<{tp}>(NoneValue, SomeValue({tp})) {{\n  method <R> {f}({p}: ({tp}) -> R, {q}: R): R = match this {{ NoneValue -> {q}, SomeValue({v}) -> {p}({v}) }}\n}}\n"),
     // interface
-    11 => format!("interface {c} {{\n  method {f}(): int\n}}\n"),
+    11 => format!("interface {c} {{\n  method {f}(): int\n  method {iface_only}(): int\n}}\n"),
     // implementer of other's interface (ok / missing member / wrong type)
     12 => format!("{}class {c} : {oc} {{\n  method {f}(): int = 6\n}}\n", imp(&oc, other)),
     13 => format!("{}class {c} : {oc} {{\n  method {g}(): int = 7\n}}\n", imp(&oc, other)),
@@ -161,6 +169,14 @@ pub fn content(rng: &mut Rng, me: &str, others: &[&str], lng: bool) -> String {
       "// a line comment that is longer than fifteen bytes\n{}class {c} {{\n  /** documentation comment of the function */\n  function {f}({p}: int): int = {{\n    let {v} = ({q}: int) -> {q} + {p};\n    let _ = \"string literal kept in the heap\";\n    {v}({oc}.{f}()) + undefinedNameThatIsLong\n  }}\n}}\n",
       imp(&oc, other)
     ),
+  };
+  // the documentation goes in front of the first declaration (after the imports)
+  if doc.is_empty() {
+    return text;
+  }
+  match text.find("class ").into_iter().chain(text.find("interface ")).min() {
+    Some(at) if at == 0 || text[..at].ends_with('\n') => format!("{}{doc}{}", &text[..at], &text[at..]),
+    _ => text,
   }
 }
 
